@@ -75,6 +75,19 @@ CLAIMED = {
         "Inner serde of CompressedSerde is the default PickleSerde.",
    technique="contract-based deductive verification: exhaustive type-case VCs over the real code with codecs as assumed inverse pairs",
    ref="5 C15"),
+ "C03": dict(
+   text="The four stream readers (_recv, _readline, _readvalue, _readsegment) are executed symbolically from the real source against a ghost "
+        "socket whose recv() returns an arbitrary non-empty prefix of the unread prophecy stream (or EINTR, or an error): segmentation is "
+        "the nondeterminism of recv, so postconditions over the total stream S = buf ++ unread hold for every segmentation and every EINTR "
+        "placement. Proved with inductive loop invariants over the join view of the chunk list: _readline splits S at its first CRLF, "
+        "_readvalue returns S[:n] and leaves S[n+2:], _readsegment splits at the (first) end token with nothing lost, _recv never lets "
+        "EINTR escape and consumes nothing on a retry, unexpected-close only when the stream really lacks the data; plus the uniqueness "
+        "lemma of the first split. Callers touch the stream only through these readers (C01).",
+   note="Trusted: ghost socket contract of recv (the OS); pyvc VC generator; z3 5.1 / cvc5 1.4 string theories; A-find/A-slice/A-join. "
+        "Withdrawn clause: first-occurrence for an arbitrary symbolic end token (proved for CRLF and the ElastiCache token only). "
+        "Termination is not claimed.",
+   technique="contract-based deductive verification: loop invariants over a ghost prophecy stream, per-path string VCs (cvc5 + z3)",
+   ref="5 C03"),
 }
 REASON_PENDING = "contracts designed (DESIGN.md section 5) but not yet mechanised; not claimed"
 
